@@ -13,11 +13,16 @@ def main():
     props = sys.argv[2:] or expect
     path = os.path.join('/repo', f)
     src = open(path).read()
-    if src.count(old) != 1:
-        print('%s: pattern occurs %d times in %s' % (mid, src.count(old), f)); sys.exit(2)
+    olds = old if isinstance(old, list) else [old]
+    news = new if isinstance(new, list) else [new]
+    for o in olds:
+        if src.count(o) != 1:
+            print('%s: pattern occurs %d times in %s' % (mid, src.count(o), f)); sys.exit(2)
     assert subprocess.run(['git', '-C', '/repo', 'status', '--porcelain', '--untracked-files=no'], capture_output=True, text=True).stdout.strip() == '', '/repo is dirty'
     try:
-        open(path, 'w').write(src.replace(old, new))
+        for o, n_ in zip(olds, news):
+            src = src.replace(o, n_)
+        open(path, 'w').write(src)
         for p in props:
             r = subprocess.run(['/verif/bin/check', p, '--tier', os.environ.get('MUT_TIER', 'quick')], capture_output=True, text=True, timeout=3000)
             viol = [l for l in r.stdout.splitlines() if l.startswith('VIOLATION')]
